@@ -550,4 +550,132 @@ theorem ef_plainHead_escape (isPrint : Nat → Bool) (hP : ∀ c, 9 ≤ c → c 
     · obtain ⟨body, hb⟩ := ef_escapeRune_esc isPrint r (by simpa using hr)
       rw [hb]; exact plainHead_bslash _
 
+
+/-! ## the main loop -/
+
+/-- the body of the loop of `scanRegex` -/
+def mainBody : Bool → M (Sum Bool Unit) := fun isQuant => do
+  let cr ← charsRight E
+  if cr = 0 then pure (.inr ()) else scanStep E isQuant
+
+/-- **the loop of `scanRegex` on `Escape w`**: it ends normally, and the children it has added to the
+    concatenation are literal leaves spelling `w` -/
+theorem ef_loop (isPrint : Nat → Bool)
+    (hW : ∀ c, Generated.metaChars.contains c = true → E.orc.isWord c = false)
+    (hP : ∀ c, 9 ≤ c → c ≤ 13 → isPrint c = false) :
+    ∀ (n : Nat) (w : List Nat), w.length ≤ n → ∀ (s : PS) (fuel : Nat) (b : Bool),
+      E.pat.drop s.pos = escape isPrint w → s.options.i = false → (escape isPrint w).length < fuel →
+      ∃ ks s', iter (mainBody E) fuel b s = .ok () s' ∧ kidsRunes ks = some w ∧
+        s'.concatenation = addKids s.concatenation ks ∧ s'.stack = s.stack ∧ s'.group = s.group ∧
+        s'.alternation = s.alternation ∧ s'.options = s.options := by
+  intro n
+  induction n with
+  | zero =>
+    intro w hw s fuel b hD hi hf
+    have : w = [] := by cases w <;> simp at hw ⊢
+    subst this
+    obtain ⟨fuel, rfl⟩ : ∃ m, fuel = m + 1 := ⟨fuel - 1, by omega⟩
+    have hl : E.pat.length - s.pos = 0 := by
+      have := congrArg List.length hD; simpa [escape] using this
+    refine ⟨[], s, ?_, rfl, rfl, rfl, rfl, rfl, rfl⟩
+    refine iter_inr _ _ _ _ _ _ ?_
+    simp [mainBody, bind, M.bind, charsRight, hl, pure, M.pure]
+  | succ n ih =>
+    intro w hw s fuel b hD hi hf
+    obtain ⟨fuel, rfl⟩ : ∃ m, fuel = m + 1 := ⟨fuel - 1, by omega⟩
+    obtain ⟨p, t, hw', hraw, ht⟩ := ef_chunk isPrint w
+    have hord : ∀ c ∈ p, isStopperXCh c = false := fun c hc => ef_raw_ord isPrint hP c (hraw c hc)
+    rw [hw', ef_escape_append, ef_escape_raw isPrint p hraw] at hD hf
+    rcases ht with rfl | ⟨r, t', rfl, hr⟩
+    · -- the run ends the pattern
+      have e0 : escape isPrint [] = [] := rfl
+      simp only [e0, List.append_nil] at hD hf hw'
+      subst hw'
+      by_cases hl : E.pat.length - s.pos = 0
+      · have : w = [] := by
+          have := congrArg List.length hD; simp [hl] at this; exact List.eq_nil_of_length_eq_zero this.symm
+        subst this
+        refine ⟨[], s, ?_, rfl, rfl, rfl, rfl, rfl, rfl⟩
+        refine iter_inr _ _ _ _ _ _ ?_
+        simp [mainBody, bind, M.bind, charsRight, hl, pure, M.pure]
+      · refine ⟨runKids s.options w, { s with pos := s.pos + w.length, concatenation := addRun s.concatenation s.options w }, ?_, kidsRunes_runKids _ _, ?_, rfl, rfl, rfl, rfl⟩
+        · refine iter_inr _ _ _ _ _ _ ?_
+          simp only [mainBody, bind, M.bind, charsRight, hl, if_false]
+          exact ef_scanStep_end E s w b hD hord hi
+        · simp [addRun_eq]
+    · -- a run, then an escaped rune
+      obtain ⟨body, hb⟩ := ef_escapeRune_esc isPrint r hr
+      rw [ef_escape_cons, hb] at hD hf
+      simp only [List.cons_append] at hD hf
+      have hl : E.pat.length - s.pos ≠ 0 := by
+        have := congrArg List.length hD; simp at this; omega
+      have hstep := ef_scanStep_esc E isPrint hW s p r body (escape isPrint t') b hb hD hord
+        (ef_plainHead_escape isPrint hP t') hi
+      obtain ⟨hd1, _⟩ := drop_add_of_append hD
+      obtain ⟨_, _, hd2⟩ := drop_cons_facts E hd1
+      obtain ⟨hd3, _⟩ := drop_add_of_append hd2
+      have hlen : t'.length ≤ n := by subst hw'; simp at hw; omega
+      obtain ⟨ks, s', h1, h2, h3, h4, h5, h6, h7⟩ := ih t' hlen
+        { s with pos := s.pos + p.length + 1 + body.length,
+                 concatenation := (addRun s.concatenation s.options p).addChild (.mk .one s.options r [] none 0 0 []),
+                 unit := none } fuel false hd3 hi (by simp at hf; omega)
+      refine ⟨runKids s.options p ++ [.mk .one s.options r [] none 0 0 []] ++ ks, s', ?_, ?_, ?_, h4, h5, h6, h7⟩
+      · refine (iter_inl _ _ _ false _ _ ?_).trans h1
+        simp only [mainBody, bind, M.bind, charsRight, hl, if_false]
+        exact hstep
+      · rw [hw']
+        have e1 : kidsRunes [RNode.mk .one s.options r [] none 0 0 []] = some [r] := by simp [kidsRunes, leafRunes]
+        have := kidsRunes_append _ _ _ _ (kidsRunes_append _ _ _ _ (kidsRunes_runKids s.options p) e1) h2
+        simpa using this
+      · rw [h3, addKids_append, addKids_append, addRun_eq]
+        simp [addKids]
+
+theorem scanRegex_eq (fuel : Nat) : scanRegex E fuel = (do
+    let o ← opts
+    startGroup (mkNodeMN .capture o 0 (-1))
+    iter (mainBody E) fuel false
+    let s ← get
+    if !s.stack.isEmpty then throw .missingParen else
+    addGroup
+    let s ← get
+    match s.unit with
+    | some u => pure u
+    | none => fault .nilUnit) := rfl
+
+theorem reverseLeft_concat (o : Opts) (ks : List RNode) :
+    reverseLeft (.mk .concatenate o 0 [] none 0 0 ks) =
+      .mk .concatenate o 0 [] none 0 0 (if o.r then ks.reverse else ks) := by
+  unfold reverseLeft
+  cases hr : o.r <;> cases ks <;> simp [RNode.o, RNode.t, RNode.kids, RNode.withKids, hr]
+
+/-- the tree `scanRegex` returns for a literal: the root Capture 0 over the one-branch alternation over
+    the concatenation of the leaves `ks` (reversed under RightToLeft) -/
+def litRoot (o : Opts) (ks : List RNode) : RNode :=
+  .mk .capture o 0 [] none 0 (-1)
+    [.mk .alternate o 0 [] none 0 0 [.mk .concatenate o 0 [] none 0 0 (if o.r then ks.reverse else ks)]]
+
+/-- **`scanRegex` on `Escape w`** from the state `Parse` starts it in -/
+theorem ef_scanRegex (isPrint : Nat → Bool)
+    (hW : ∀ c, Generated.metaChars.contains c = true → E.orc.isWord c = false)
+    (hP : ∀ c, 9 ≤ c → c ≤ 13 → isPrint c = false)
+    (w : List Nat) (hpat : E.pat = escape isPrint w) (s : PS) (hpos : s.pos = 0) (hst : s.stack = [])
+    (hi : s.options.i = false) (fuel : Nat) (hf : E.pat.length < fuel) :
+    ∃ ks s', scanRegex E fuel s = .ok (litRoot s.options ks) s' ∧ kidsRunes ks = some w := by
+  obtain ⟨ks, s', h1, h2, h3, h4, h5, h6, h7⟩ := ef_loop E isPrint hW hP w.length w (Nat.le_refl _)
+    { s with group := mkNodeMN .capture s.options 0 (-1), alternation := mkNode .alternate s.options,
+             concatenation := mkNode .concatenate s.options } fuel false
+    (by simp [hpos, hpat]) hi (by rw [← hpat]; exact hf)
+  simp only [] at h3 h4 h5 h6 h7
+  suffices h : ∃ s'', scanRegex E fuel s = .ok (litRoot s.options ks) s'' by
+    obtain ⟨s'', h⟩ := h
+    exact ⟨ks, s'', h, h2⟩
+  rw [scanRegex_eq]
+  simp only [bind, M.bind, opts, startGroup, modify, h1, get]
+  have hemp : (!s'.stack.isEmpty) = false := by simp [h4, hst]
+  have hc : isCond s'.group.t = false := by rw [h5]; rfl
+  simp only [hemp, Bool.false_eq_true, if_false, M.bind, addGroup, hc, get]
+  simp only [h3, h5, h6, mkNode, mkNodeMN, addKids_mk, List.nil_append, reverseLeft_concat, RNode.addChild,
+    pure, M.pure, litRoot]
+  exact ⟨_, rfl⟩
+
 end RegexVerif.Parser
